@@ -22,7 +22,9 @@ def C(s):
 
 def I(v):
     if v < 0:
-        return un("-", {"t": "int", "v": -v})
+        return un("-", I(-v))
+    if v > 1 << 30:
+        return {"t": "bigint", "txt": C(str(v))}      # beyond the model's arithmetic range: carried as decimal text
     return {"t": "int", "v": v}
 
 
@@ -165,7 +167,7 @@ def pe(n, minp=-1):
     if t == "int":
         return str(n["v"])
     if t == "bigint":
-        return n["txt"]
+        return "".join(n["txt"])
     if t == "float":
         return fstr(n["v"])
     if t == "bool":
